@@ -1,4 +1,214 @@
 package checks
 
-// Local keymaps (vi-opp, visual, menu-select) for C03 — filled in below.
-func runC03Local(c *Ctx) {}
+import (
+	"fmt"
+	"strings"
+
+	"verif/internal/harness"
+)
+
+// Local keymaps (vi-opp, visual, menu-select) for C03.
+//
+// The local keymap under test is REPLACED by a fresh map holding the table T (1..2
+// bindings to logging probe commands over the keys a, b, C-x, sequences of <= 2 keys); the
+// session first enters the local keymap with real keys (vi: "xyz" ESC then d / v; emacs:
+// "f" TAB on three candidates), then every key string of <= 3 keys is typed one key per
+// read. What a command run from a local keymap does to that keymap (operator-pending ends,
+// the menu may close) is not the subject of C03, so the reference tokenizer is followed up
+// to the first invocation only:
+//   (a) soundness on the whole input: every logged invocation is of a command bound in T,
+//       with caller keys equal to a sequence bound to it;
+//   (b) when the input starts with keys that the statement resolves without any dead key,
+//       the first logged invocation is that command with those keys, and it does not happen
+//       before its last key has arrived (no command on a proper prefix).
+
+type c03LocalCase struct {
+	local string
+	t     c03Table
+	input []string
+}
+
+var c03LocalEntry = map[string]struct {
+	rc   string
+	pre  []string
+	comp bool
+}{
+	"vi-opp":      {rc: "set editing-mode vi\n", pre: []string{"xyz", "\x1b", "d"}},
+	"vi-visual":   {rc: "set editing-mode vi\n", pre: []string{"xyz", "\x1b", "v"}},
+	"menu-select": {rc: "", pre: []string{"f", "\t"}, comp: true},
+}
+
+func c03LocalJob(id int, cs c03LocalCase) harness.Job {
+	en := c03LocalEntry[cs.local]
+	cfg := harness.Config{RC: en.rc, W: 60, H: 12, Prompt: "$ ", NoHist: true, Replace: []string{cs.local}}
+	if en.comp {
+		cfg.Comps = &harness.CompSpec{Items: []harness.Comp{{Value: "foo"}, {Value: "fob"}, {Value: "fox"}}, ByWord: true}
+	}
+	names := map[string]bool{}
+	for _, b := range cs.t {
+		cfg.Binds = append(cfg.Binds, harness.BindSpec{Keymap: cs.local, Seq: b.Seq, Action: b.Cmd})
+		if !names[b.Cmd] {
+			names[b.Cmd] = true
+			cfg.Probes = append(cfg.Probes, harness.Probe{Name: b.Cmd, Kind: "log"})
+		}
+	}
+	ans := append(Keys(en.pre...), Keys(cs.input...)...)
+	return harness.Job{ID: id, Cfg: cfg, Calls: [][]harness.Answer{ans}, Want: harness.Want{Obs: 2, From: len(en.pre)}}
+}
+
+func c03LocalVerdict(cs c03LocalCase, tr *harness.Trace) (fp, what string, nontrivial bool) {
+	call := LastCall(tr)
+	if call.Outcome != "aborted" {
+		return "", "not judged (C01): " + call.Outcome + "@" + call.Site, false
+	}
+	en := c03LocalEntry[cs.local]
+	// the local keymap must be active when the first key of the input is read
+	if len(call.Waits) == 0 || call.Waits[0].Obs == nil || call.Waits[0].Obs.Local != cs.local {
+		got := "?"
+		if len(call.Waits) > 0 && call.Waits[0].Obs != nil {
+			got = call.Waits[0].Obs.Local
+		}
+		return "", fmt.Sprintf("not judged: local keymap %q not active after the entry keys (is %q)", cs.local, got), false
+	}
+	desc := fmt.Sprintf("local keymap=%s table=%s input=%q", cs.local, cs.t, cs.input)
+	var gs []string
+	for _, e := range call.Log {
+		gs = append(gs, fmt.Sprintf("%s(%q)@wait%d", e.Name, e.Caller, e.Wait))
+	}
+	for _, e := range call.Log {
+		ok, boundCmd := false, false
+		for _, b := range cs.t {
+			if b.Cmd == e.Name {
+				boundCmd = true
+				if b.Seq == e.Caller {
+					ok = true
+				}
+			}
+		}
+		if !boundCmd {
+			return "runs-unbound-command/local", fmt.Sprintf("%s: %s ran, which is bound to nothing", desc, e.Name), true
+		}
+		if !ok {
+			return "command-run-with-keys-of-another-sequence/local", fmt.Sprintf("%s: %s ran with caller keys %q, which are not a sequence bound to it (log: %v)", desc, e.Name, e.Caller, gs), true
+		}
+	}
+	// the first token according to the statement
+	for k := 1; k <= len(cs.input); k++ {
+		want, dead, _, fx := c03ModelFull(cs.t, cs.input[:k])
+		if fx == -99 || dead {
+			return "", "", false
+		}
+		if len(want) == 0 {
+			continue
+		}
+		// the model fires after typed key k (index k-1): the invocation must be logged, first, and
+		// at the wait that follows that key - not earlier
+		nontrivial = true
+		if len(call.Log) == 0 {
+			return "bound-sequence-does-not-run/local", fmt.Sprintf("%s: after %q the command %s must have run; nothing ran", desc, cs.input[:k], want[0].Cmd), true
+		}
+		e := call.Log[0]
+		if e.Name != want[0].Cmd || e.Caller != want[0].Caller {
+			return "wrong-command-runs/local", fmt.Sprintf("%s: after %q the command %s(%q) must run first; log: %v", desc, cs.input[:k], want[0].Cmd, want[0].Caller, gs), true
+		}
+		at := len(en.pre) + k // wait index following typed key k
+		if e.Wait < at {
+			return "command-runs-on-a-proper-prefix/local", fmt.Sprintf("%s: %s ran before its last key arrived (wait %d, its last key is consumed at wait %d); log: %v", desc, e.Name, e.Wait, at-1, gs), true
+		}
+		if e.Wait > at {
+			return "command-runs-late/local", fmt.Sprintf("%s: %s must have run once key #%d had arrived; it ran at wait %d (expected %d); log: %v", desc, e.Name, k, e.Wait, at, gs), true
+		}
+		return "", "", true
+	}
+	return "", "", false
+}
+
+func runC03Local(c *Ctx) {
+	keys := []string{"a", "b", "\x18"}
+	seqs := c03Sequences(keys, 2)
+	maxIn := 3
+	if !c.Quick() {
+		maxIn = 4
+	}
+	var inputs [][]string
+	var rec func(p []string, d int)
+	rec = func(p []string, d int) {
+		if len(p) > 0 {
+			inputs = append(inputs, append([]string{}, p...))
+		}
+		if d == maxIn {
+			return
+		}
+		for _, k := range keys {
+			rec(append(p, k), d+1)
+		}
+	}
+	rec(nil, 0)
+	var tables []c03Table
+	for i, s1 := range seqs {
+		tables = append(tables, c03Table{{Seq: s1, Cmd: "p1"}})
+		for j, s2 := range seqs {
+			if j > i {
+				tables = append(tables, c03Table{{Seq: s1, Cmd: "p1"}, {Seq: s2, Cmd: "p2"}})
+			}
+		}
+	}
+	var cases []c03LocalCase
+	for _, local := range []string{"vi-opp", "vi-visual", "menu-select"} {
+		for _, t := range tables {
+			for _, in := range inputs {
+				cases = append(cases, c03LocalCase{local, t, in})
+			}
+		}
+	}
+	c.Bounds["local_keymaps"] = map[string]any{"keymaps": []string{"vi-opp", "vi-visual", "menu-select"}, "tables": len(tables), "inputs": len(inputs), "cases": len(cases)}
+	next := 0
+	gen := func() (harness.Job, bool) {
+		if next >= len(cases) || (next%8192 == 0 && c.Expired()) {
+			return harness.Job{}, false
+		}
+		j := c03LocalJob(next, cases[next])
+		next++
+		return j, true
+	}
+	c.Pool.Stream(gen, func(j *harness.Job, t *harness.Trace) {
+		cs := cases[j.ID]
+		c.Evaluations++
+		c.Traces++
+		c.Transitions += int64(len(cs.input))
+		if t.Err != "" {
+			c.HarnessError(t.Err)
+			return
+		}
+		fp, what, non := c03LocalVerdict(cs, t)
+		if non {
+			c.NontrivialN++
+		}
+		if fp == "" {
+			if strings.HasPrefix(what, "not judged") {
+				k := strings.SplitN(what, "@", 2)[0]
+				c.Outcome("local/" + k)
+				if c.Outcomes["local/"+k] == 1 {
+					c.Sample(map[string]any{"not_judged": what, "case": fmt.Sprintf("%s %s %q", cs.local, cs.t, cs.input)})
+				}
+			} else {
+				c.Outcome("local/ok")
+			}
+			return
+		}
+		c.Outcome(fp)
+		if cd, ok := c.cands[fp]; ok {
+			cd.count++
+			return
+		}
+		jj := *j
+		csc := cs
+		c.Violate(Witness{Fingerprint: fp, What: what, Engine: "session", Job: &jj, Input: jsonRaw(map[string]any{"Local": cs.local, "Table": cs.t, "Input": cs.input})}, func() string {
+			f, _, _ := c03LocalVerdict(csc, c.Pool.RunOne(&jj))
+			return f
+		})
+	})
+	if next < len(cases) {
+		c.Cap(fmt.Sprintf("internal deadline: %d of %d local-keymap cases run", next, len(cases)))
+	}
+}
